@@ -947,19 +947,65 @@ fn suffix_ok_for(base: &str, s: &str) -> bool {
     !t.is_empty() && t.chars().all(|c| c.is_ascii_digit())
 }
 
-pub fn check_c14(case: &HistoryCase, obs: &Obs, rep: &mut Report) {
-    let (structs, etree) = match extract_tree(&obs.out_unsorted) {
-        Ok(x) => x,
-        Err(e) => {
-            rep.inconclusive(&format!("extractor: {}", short(&e)));
-            return;
+/// fallback mapping when the structs are not in pre-order: follow field types by NAME from the first
+/// struct, pairing fields with model children by bound name (only when that is unambiguous)
+fn struct_paths_by_name(structs: &[RStruct], m: &SNode) -> Option<Vec<(String, Vec<String>)>> {
+    fn go(structs: &[RStruct], s: &RStruct, m: &SNode, path: &mut Vec<String>, out: &mut Vec<(String, Vec<String>)>, depth: usize) -> bool {
+        if depth > 400 {
+            return false;
         }
-    };
-    let paths = match struct_paths(&etree, &obs.model) {
-        Some(p) => p,
-        None => {
-            rep.inconclusive("extracted tree does not correspond to the model (C03 reports the cause)");
-            return;
+        path.push(m.name.clone());
+        out.push((s.name.clone(), path.clone()));
+        for f in &s.fields {
+            let b = f.binding();
+            if b == "$text" || b.starts_with('@') || f.base == "String" {
+                continue;
+            }
+            let cands: Vec<&model::SChild> = m.children.iter().filter(|c| child_bound(&c.name) == b).collect();
+            if cands.len() != 1 {
+                return false;
+            }
+            let target = match structs.iter().find(|x| x.name == f.base) {
+                Some(t) => t,
+                None => return false,
+            };
+            if !go(structs, target, &cands[0].node, path, out, depth + 1) {
+                return false;
+            }
+        }
+        path.pop();
+        true
+    }
+    let mut out = Vec::new();
+    let mut path = Vec::new();
+    if go(structs, structs.first()?, m, &mut path, &mut out, 0) {
+        Some(out)
+    } else {
+        None
+    }
+}
+
+pub fn check_c14(case: &HistoryCase, obs: &Obs, rep: &mut Report) {
+    let (structs, paths) = match extract_tree(&obs.out_unsorted) {
+        Ok((structs, etree)) => match struct_paths(&etree, &obs.model) {
+            Some(p) => (structs, p),
+            None => {
+                rep.inconclusive("extracted tree does not correspond to the model (C03 reports the cause)");
+                return;
+            }
+        },
+        Err(e) => {
+            // not in pre-order (C04/C09 report that): names can still be judged by following types by name
+            match extract::parse_rendered(&obs.out_unsorted).ok().and_then(|st| struct_paths_by_name(&st, &obs.model).map(|p| (st, p))) {
+                Some(x) => {
+                    rep.count("cases_mapped_by_type_name");
+                    x
+                }
+                None => {
+                    rep.inconclusive(&format!("extractor: {}", short(&e)));
+                    return;
+                }
+            }
         }
     };
     // all positions (String-typed leaves included) by Pascal name
